@@ -67,11 +67,12 @@ def subspaces(tier):
             for r in rads:
                 yield {'t': t, 'radix': r, 'share': 'c'}
     subs.append(('list radix %s' % ('2..36' if not q else rads), rad()))
+    subs.append(('noice-debug-info', ({'t': t, 'radix': 16, 'share': 'c', 'dbg': 'NOICE'} for t in sorted(GEN) + (corpus.tests()[::3] if q else corpus.tests()))))
     return subs
 
 
 def describe(case):
-    return '%s -LISTRADIX %d share -%s' % (case['t'], case['radix'], case['share'])
+    return '%s -LISTRADIX %d share -%s%s' % (case['t'], case['radix'], case['share'], ' -g ' + case['dbg'] if case.get('dbg') else '')
 
 
 def parse_int(s, radix):
@@ -137,6 +138,55 @@ def width(nbytes, radix):
     return n
 
 
+def check_noice(case, t, chunks, rstarts, ends, retract, lst, desc):
+    """NoICE command file: DEFINE name value / FILE name start / LINE n offset... / ENDFILE end, for the code segment"""
+    noi = (core.get('src/' + t + '.noi') or b'').decode('latin-1')
+    if not noi:
+        return core.R(True, 'no-noice-file', nontrivial=False)
+    starts = set((os.path.basename(c['file']), c['line'], c['pc']) for c in chunks if c['seg'] == 1) | set((f, ln, pc) for sg, f, ln, pc in rstarts if sg == 1)
+    # (statements that emit nothing - an ALIGN with nothing to skip - are booked at the current address: start or end of a chunk)
+    addrs = set((x[0], x[2]) for x in starts) | set((os.path.basename(c['file']), c['pc'] + len(c['data']) // max(c['gran'], 1)) for c in chunks if c['seg'] == 1) \
+        | set((f, a) for sg, f, a in ends if sg == 1)
+    cur = None
+    nline = 0
+    for l in noi.split('\n'):
+        f = l.split()
+        if not f:
+            continue
+        if f[0] == 'FILE':
+            if cur is not None:
+                return core.R(False, 'noice', 'noice/file-inside-file', 'FILE %s opened before the previous block was closed on %s' % (f[1], desc))
+            cur = (os.path.basename(f[1]), int(f[2], 16), [])
+        elif f[0] == 'LINE':
+            if cur is None:
+                return core.R(False, 'noice', 'noice/line-outside-file', 'LINE %s %s stands in no FILE block on %s' % (f[1], f[2], desc))
+            n, a = int(f[1]), cur[1] + int(f[2], 16)
+            nline += 1
+            cur[2].append(a)
+            if not retract and (cur[0], n, a) not in starts and (cur[0], a) not in addrs:
+                return core.R(False, 'noice', 'noice/line-address', 'LINE %d at %x of %s names no code that line emitted there on %s' % (n, a, cur[0], desc))
+        elif f[0] == 'ENDFILE':
+            if cur is None:
+                return core.R(False, 'noice', 'noice/endfile-without-file', 'ENDFILE without FILE on ' + desc)
+            end = int(f[-1], 16)
+            if cur[2] and not (cur[1] <= min(cur[2]) and max(cur[2]) <= end):
+                return core.R(False, 'noice', 'noice/file-range', 'block of %s says %x..%x but its lines lie at %x..%x on %s' % (cur[0], cur[1], end, min(cur[2]), max(cur[2]), desc))
+            cur = None
+    if cur is not None:
+        return core.R(False, 'noice', 'noice/unclosed-file', 'FILE block of %s is not closed on %s' % (cur[0], desc))
+    # symbol values: DEFINE against the listing's symbol table
+    symlst = {}
+    for m in re.finditer(r'[ *]([A-Za-z_.$][\w.$]*) :\s+([0-9A-Za-z]+) [-CDIXYBPROE] \|', lst):
+        v = parse_int(m.group(2), 16)
+        if v is not None:
+            symlst[m.group(1).upper()] = v
+    for m in re.finditer(r'^DEFINE (\S+) 0x([0-9A-Fa-f]+)', noi, re.M):
+        nm = m.group(1).upper()
+        if nm in symlst and (symlst[nm] & 0xffffffff) != (int(m.group(2), 16) & 0xffffffff):
+            return core.R(False, 'noice', 'noice/define-value', 'DEFINE %s %s, listing says %x on %s' % (m.group(1), m.group(2), symlst[nm], desc))
+    return core.R(True, 'noice-consistent', nontrivial=nline > 0, states=['noi:%s' % t], transitions=1)
+
+
 def evaluate(case):
     t = case['t']
     core.fresh()
@@ -151,7 +201,7 @@ def evaluate(case):
         corpus.prep(t, d)
         fl = [x for x in corpus.flags(t) if x not in ('-c', '-A')]
     tr = os.path.join(core.workdir(), 'chunks.txt')
-    opts = fl + ['-q', '-i', corpus.incdir(), '-L', '-g', 'MAP'] + SHARE[case['share']] + (['-LISTRADIX', str(case['radix'])] if case['radix'] != 16 else [])
+    opts = fl + ['-q', '-i', corpus.incdir(), '-L', '-g', case.get('dbg', 'MAP')] + SHARE[case['share']] + (['-LISTRADIX', str(case['radix'])] if case['radix'] != 16 else [])
     o = core.run('asl', opts + [t + '.asm'], cwd=d, env={'ASL_VERIF_CHUNKS': tr}, timeout=120)
     desc = describe(case)
     ck = core.crashkind(o)
@@ -276,6 +326,8 @@ def evaluate(case):
             # advance over the chunks of this statement; the listing may show only the first part of long data (rest on continuation lines)
             ci = cj if len(data) == nbytes else cj
             ncode += 1
+    if case.get('dbg') == 'NOICE':
+        return check_noice(case, t, chunks, rstarts, ends, retract, lst, desc)
     # (C) MAP line:address entries
     mp = (core.get('src/' + t + '.map') or b'').decode('latin-1')
     seg = None
